@@ -435,7 +435,7 @@ func (g *gen) randomOps(universe []uint64, n int) {
 
 func main() {
 	out := hx.Flags("C05", 300)
-	out.Rule = "histories of Put/Delete/Get. Key universes: 1-3 section bases out of {0,7,100000,300000,2^32-3,2^32,2^32+100000,2^40,2^63,2^64-2^32-104} plus small offsets, keys just inside/outside the 2^32-1 span of a section, and in wild histories the 2^32 alias of a key. 'short' histories: 8..70 random ops (ascending, descending and interleaved key orders create, order and fill several sections). 'long' histories (1 in 3): 129..175 ascending keys base+10*i, then 20..60 ops on in-between keys base+10*j+5 (j below the 128-entry look-back window: overflow path incl. overwrite, delete, re-delete; j inside the window: shifted insertion) mixed with ops on existing keys. Modes: 'wild' (any size incl. 0, negative, tombstone, MinInt32, MaxInt32; zero offsets; deletes of anything), 'disciplined' (what a Volume issues: nonzero offset, size>0, delete only live keys; half of them never write a key twice), 'disciplined+empty' (size 0 allowed: finding 1). Offsets up to the build's maximum (>= 2^32 under 5BytesOffset in 1 of 4 puts). The section capacity batch=100000 of the real code is not reachable (capacity overflow is covered by the proofs with batch as a parameter). First five cases are fixed witnesses (findings 0,1,2 and the two repaired defects). non-trivial = some Get found a value or some Delete removed one on the bare CompactMap; distinct = canonical op list"
+	out.Rule = "histories of Put/Delete/Get. Key universes: 1-3 section bases out of {0,7,100000,300000,2^32-3,2^32,2^32+100000,2^40,2^63,2^64-2^32-104} plus small offsets, keys just inside/outside the 2^32-1 span of a section, and in wild histories the 2^32 alias of a key. 'short' histories: 8..70 random ops (ascending, descending and interleaved key orders create, order and fill several sections). 'long' histories (1 in 3): 129..175 ascending keys base+10*i, then 20..60 ops on in-between keys base+10*j+5 (j below the 128-entry look-back window: overflow path incl. overwrite, delete, re-delete; j inside the window: shifted insertion) mixed with ops on existing keys. Modes: 'wild' (any size incl. 0, negative, tombstone, MinInt32, MaxInt32; zero offsets; deletes of anything), 'disciplined' (what a Volume issues: nonzero offset, size>0, delete only live keys; half of them never write a key twice), 'disciplined+empty' (size 0 allowed: finding 0). Offsets up to the build's maximum (>= 2^32 under 5BytesOffset in 1 of 4 puts). The section capacity batch=100000 of the real code is not reachable (capacity overflow is covered by the proofs with batch as a parameter). Every case also carries the answers of the real bloom filter (same library, parameters and key order as newNeedleMapMetricFromIndexFile) for both .idx files: the model's oracle; a false positive is finding 2. First five cases are fixed witnesses (findings 0 and 1, and the three repaired defects). non-trivial = some Get found a value or some Delete removed one on the bare CompactMap; distinct = canonical op list"
 	root := hx.NewRng(out.Seed)
 	out.Extra["offset_size"] = types.OffsetSize
 	out.Extra["batch"] = needle_map.VerifBatch
@@ -450,17 +450,17 @@ func main() {
 		g.keys[base+uint64(n-1)*10] = true
 	}
 	// ---- fixed witnesses ----
-	{ // 0: finding 0 — re-delete of an overflow entry returns a negative size
+	{ // 0: repaired (iii) — the second Delete of an overflow entry returns 0 (was: the negative size)
 		g := newGen(root, true, true, false)
 		asc(g, 0, 140)
 		g.ops = append(g.ops, op{0, 55, 7, 778}, op{2, 55, 0, 0}, op{1, 55, 9, 0}, op{1, 55, 9, 0}, op{2, 55, 0, 0}, op{1, 50, 9, 0}, op{1, 50, 9, 0})
 		g.keys[55], g.keys[50] = true, true
-		runCase(out, g.ops, g.probes(), "witness-finding0-redelete", 135)
+		runCase(out, g.ops, g.probes(), "witness-repaired-overflow-redelete", 135)
 	}
-	// 1: finding 1 — empty put, counted while running, a deletion on reload
-	runCase(out, []op{{0, 1, 1, 0}, {0, 2, 2, 5}, {2, 1, 0, 0}}, []uint64{0, 1, 2, 3}, "witness-finding1-empty-put", 0)
-	// 2: finding 2 — LevelDB / sorted-file counters after a key was written twice
-	runCase(out, []op{{0, 1, 1, 10}, {0, 1, 2, 20}, {0, 2, 3, 30}, {1, 2, 4, 0}, {0, 2, 5, 40}, {2, 1, 0, 0}, {2, 2, 0, 0}}, []uint64{0, 1, 2, 3}, "witness-finding2-rewrite", 0)
+	// 1: finding 0 — empty put, counted while running, a deletion on reload
+	runCase(out, []op{{0, 1, 1, 0}, {0, 2, 2, 5}, {2, 1, 0, 0}}, []uint64{0, 1, 2, 3}, "witness-finding0-empty-put", 0)
+	// 2: finding 1 — LevelDB / sorted-file counters after a key was written twice
+	runCase(out, []op{{0, 1, 1, 10}, {0, 1, 2, 20}, {0, 2, 3, 30}, {1, 2, 4, 0}, {0, 2, 5, 40}, {2, 1, 0, 0}, {2, 2, 0, 0}}, []uint64{0, 1, 2, 3}, "witness-finding1-rewrite", 0)
 	// 3: repaired (i) — a key 2^32 above an existing one is absent and cannot delete it
 	runCase(out, []op{{0, 5, 1, 10}, {0, 6, 2, 20}, {2, 1<<32 + 5, 0, 0}, {1, 1<<32 + 6, 3, 0}, {2, 5, 0, 0}, {2, 6, 0, 0}, {0, 1<<32 + 5, 4, 30}, {2, 1<<32 + 5, 0, 0}, {2, 5, 0, 0}},
 		[]uint64{5, 6, 1<<32 + 5, 1<<32 + 6, 1<<33 + 5}, "witness-repaired-span", 0)
@@ -468,7 +468,7 @@ func main() {
 		g := newGen(root, true, true, false)
 		asc(g, 0, 140)
 		// (the final Delete of an absent key keeps the history outside the volume discipline, so the
-		// reload comparison — where rewriting key 55 would trip finding 2 — does not apply)
+		// reload comparison — where rewriting key 55 would trip finding 1 — does not apply)
 		g.ops = append(g.ops, op{0, 55, maxUnits(), 777}, op{2, 55, 0, 0}, op{0, 55, 9, 778}, op{2, 55, 0, 0}, op{1, 99999, 3, 0})
 		g.keys[55] = true
 		runCase(out, g.ops, g.probes(), "witness-repaired-overflow-overwrite", 135)
@@ -516,7 +516,7 @@ func main() {
 			}
 			mids = append(mids, base+uint64(n)*10+7)
 			g.randomOps(mids, r.Range(20, 60))
-			if wild && r.Chance(1, 2) { // delete an overflow key twice (finding 0)
+			if wild && r.Chance(1, 2) { // delete an overflow key twice (repaired (iii))
 				k := mids[r.Intn(6)]
 				g.put(k)
 				g.del(k)
